@@ -26,7 +26,7 @@ func tryReplay(w *world, o *vc.OblResult, ex *vc.Exec, rp *Replay) {
 	// Prefer a counterexample of the query with every opaque predicate
 	// unfolded: its model is faithful to the data, not only to the predicate.
 	useEx, useObl, useScript := ex, o.O, o.Script
-	for _, small := range []uint64{16, 96, 0} {
+	for _, small := range []uint64{16, 96, 640, 0} {
 		ex2 := vc.NewExec(w.prog, w.db, ex.Fn)
 		ex2.RevealAll = true
 		ex2.SmallLen = small
